@@ -14,9 +14,9 @@ Ltac bool_cases :=
 
 Ltac step_inv H :=
   match type of H with
-  | step ?tk ?s ?l = Some ?s' =>
+  | xstep ?tk ?s ?l = Some ?s' =>
       destruct s as [r c d p di att f gf gd gg];
-      unfold step in H; cbn in H;
+      unfold xstep in H; cbn in H;
       destruct l; destruct p; try discriminate H;
       destruct tk; cbn in H; try discriminate H;
       bool_cases; try discriminate H;
@@ -31,45 +31,45 @@ Ltac step_inv H :=
 Lemma wait_has_ctx_arm tk s :
   ctxd s = true ->
   (exists d, pcv s = PDialWait d) \/ (exists f r, pcv s = PWait f r) ->
-  exists s', step tk s AArmCtx = Some s'.
+  exists s', xstep tk s AArmCtx = Some s'.
 Proof.
   intros Hc [[d Hp]|[f [r Hp]]]; destruct s as [r0 c d0 p di att f0 gf gd gg]; cbn in *; subst.
-  - unfold step; cbn. destruct d as [ok|]; destruct (ctx_arm_takes_dial tk); eauto.
-  - unfold step; cbn. eauto.
+  - unfold xstep; cbn. destruct d as [ok|]; destruct (ctx_arm_takes_dial tk); eauto.
+  - unfold xstep; cbn. eauto.
 Qed.
 
 (* once ctx is done no non-returned state is blocked: some own step is enabled *)
 Lemma ctx_no_block tk s :
   ctxd s = true -> returned s = false ->
-  exists a s', is_own a = true /\ step tk s a = Some s'.
+  exists a s', is_own a = true /\ xstep tk s a = Some s'.
 Proof.
   intros Hc Hr. destruct s as [r c d p di att f gf gd gg]; cbn in *; subst c.
   destruct p; cbn in Hr; try discriminate.
-  - exists (AGet false). unfold step; cbn. destruct tk; eauto.
-  - exists AArmCtx. unfold step; cbn. destruct dres; destruct (ctx_arm_takes_dial tk); eauto.
-  - exists (AWrite true). unfold step; cbn. eauto.
-  - exists AArmCtx. unfold step; cbn. eauto.
-  - exists ACheck. unfold step; cbn. rewrite andb_false_r. eauto.
+  - exists (AGet false). unfold xstep; cbn. destruct tk; eauto.
+  - exists AArmCtx. unfold xstep; cbn. destruct dres; destruct (ctx_arm_takes_dial tk); eauto.
+  - exists (AWrite true). unfold xstep; cbn. eauto.
+  - exists AArmCtx. unfold xstep; cbn. eauto.
+  - exists ACheck. unfold xstep; cbn. rewrite andb_false_r. eauto.
 Qed.
 
 (* more generally: a non-returned state that is not at a blocking point always has an enabled own step *)
 Lemma nonblocking_pc_progress tk s :
   returned s = false ->
   (forall d, pcv s <> PDialWait d) -> (forall f r, pcv s <> PWait f r) ->
-  exists a s', is_own a = true /\ step tk s a = Some s'.
+  exists a s', is_own a = true /\ xstep tk s a = Some s'.
 Proof.
   intros Hr Hd Hw. destruct s as [r c d p di att f gf gd gg]; cbn in *.
   destruct p; cbn in Hr; try discriminate.
-  - exists (AGet false). unfold step; cbn. destruct tk; eauto.
+  - exists (AGet false). unfold xstep; cbn. destruct tk; eauto.
   - exfalso. apply (Hd dres). reflexivity.
-  - exists (AWrite true). unfold step; cbn. eauto.
+  - exists (AWrite true). unfold xstep; cbn. eauto.
   - exfalso. apply (Hw fresh ready). reflexivity.
-  - exists ACheck. unfold step; cbn.
+  - exists ACheck. unfold xstep; cbn.
     destruct (negb fresh && (r <? retry_limit tk) && negb c); eauto.
 Qed.
 
 Lemma own_step_decreases tk s l s' :
-  step tk s l = Some s' -> is_own l = true -> mu tk s' < mu tk s.
+  xstep tk s l = Some s' -> is_own l = true -> mu tk s' < mu tk s.
 Proof.
   intros H Ho. step_inv H; cbn in Ho; try discriminate Ho; unfold mu; cbn;
     repeat match goal with
@@ -81,25 +81,25 @@ Proof.
 Qed.
 
 Lemma env_step_noninc tk s l s' :
-  step tk s l = Some s' -> is_own l = false -> mu tk s' <= mu tk s.
+  xstep tk s l = Some s' -> is_own l = false -> mu tk s' <= mu tk s.
 Proof.
   intros H Ho. step_inv H; cbn in Ho; try discriminate Ho; unfold mu; cbn; try lia;
     repeat match goal with |- context [if ?b then _ else _] => destruct b end; cbn; lia.
 Qed.
 
 Lemma own_steps_bounded tk ls : forall s s',
-  exec tk ls s = Some s' -> count_own ls + mu tk s' <= mu tk s.
+  xexec tk ls s = Some s' -> count_own ls + mu tk s' <= mu tk s.
 Proof.
   induction ls as [|l ls IH]; cbn; intros s s' H.
   - injection H as <-. lia.
-  - destruct (step tk s l) as [s1|] eqn:E; [|discriminate].
+  - destruct (xstep tk s l) as [s1|] eqn:E; [|discriminate].
     specialize (IH _ _ H).
     destruct (is_own l) eqn:O.
     + pose proof (own_step_decreases _ _ _ _ E O). lia.
     + pose proof (env_step_noninc _ _ _ _ E O). lia.
 Qed.
 
-Lemma mu_init tk : mu tk init = own_bound tk.
+Lemma mu_init tk : mu tk xinit = own_bound tk.
 Proof. destruct tk; reflexivity. Qed.
 
 Lemma mu_ctx_done tk s : ctxd s = true -> mu tk s <= ctx_bound.
@@ -112,28 +112,28 @@ Proof.
   unfold mu, returned. destruct (pcv s); cbn; try reflexivity; intros; lia.
 Qed.
 
-Lemma ctx_monotone tk s l s' : step tk s l = Some s' -> ctxd s = true -> ctxd s' = true.
+Lemma ctx_monotone tk s l s' : xstep tk s l = Some s' -> ctxd s = true -> ctxd s' = true.
 Proof. intros H Hc. step_inv H; cbn in *; auto; try discriminate. Qed.
 
-Lemma ctx_monotone_exec tk ls : forall s s', exec tk ls s = Some s' -> ctxd s = true -> ctxd s' = true.
+Lemma ctx_monotone_exec tk ls : forall s s', xexec tk ls s = Some s' -> ctxd s = true -> ctxd s' = true.
 Proof.
   induction ls as [|l ls IH]; cbn; intros s s' H Hc.
   - injection H as <-. auto.
-  - destruct (step tk s l) eqn:E; [|discriminate]. eapply IH; eauto. eapply ctx_monotone; eauto.
+  - destruct (xstep tk s l) eqn:E; [|discriminate]. eapply IH; eauto. eapply ctx_monotone; eauto.
 Qed.
 
 (* the whole of C14_ctx_exit *)
 Lemma ctx_exit tk ls s :
-  exec tk ls init = Some s ->
+  xexec tk ls xinit = Some s ->
   (* (a) no state is blocked once ctx is done; at the two blocking points the enabled step is the ctx arm itself *)
   (ctxd s = true -> returned s = false ->
-     (exists a s', is_own a = true /\ step tk s a = Some s') /\
-     ((exists d, pcv s = PDialWait d) \/ (exists f r, pcv s = PWait f r) -> exists s', step tk s AArmCtx = Some s')) /\
+     (exists a s', is_own a = true /\ xstep tk s a = Some s') /\
+     ((exists d, pcv s = PDialWait d) \/ (exists f r, pcv s = PWait f r) -> exists s', xstep tk s AArmCtx = Some s')) /\
   (* (b) a measure strictly decreases on every own step and never increases otherwise *)
-  (forall l s', step tk s l = Some s' -> if is_own l then mu tk s' < mu tk s else mu tk s' <= mu tk s) /\
+  (forall l s', xstep tk s l = Some s' -> if is_own l then mu tk s' < mu tk s else mu tk s' <= mu tk s) /\
   (* (c) hence the exchange performs at most own_bound own steps in total, at most ctx_bound after ctx is done *)
   count_own ls + mu tk s <= own_bound tk /\
-  (ctxd s = true -> forall ls' s', exec tk ls' s = Some s' -> count_own ls' <= ctx_bound) /\
+  (ctxd s = true -> forall ls' s', xexec tk ls' s = Some s' -> count_own ls' <= ctx_bound) /\
   (mu tk s = 0 -> returned s = true).
 Proof.
   intros Hex. repeat split.
@@ -149,11 +149,11 @@ Qed.
 
 (* ---------- 2. the invariant behind retry_bound and stale_success ---------- *)
 
-Definition causes (tk : tkind) (s : state) : Prop :=
+Definition causes (tk : tkind) (s : xstate) : Prop :=
   ctxd s = true \/ g_dial_fail s = true \/ g_get_err s = true \/ g_fresh_fail s = true \/
   (last_attempt_dials tk = false /\ retry_limit tk < fails s).
 
-Definition inv (tk : tkind) (s : state) : Prop :=
+Definition inv (tk : tkind) (s : xstate) : Prop :=
   retry s <= retry_limit tk /\
   attempts s = retry s + (match pcv s with PGet => 0 | _ => 1 end) /\
   (match pcv s with
@@ -177,11 +177,11 @@ Definition inv (tk : tkind) (s : state) : Prop :=
    | _ => True
    end).
 
-Lemma inv_init tk : inv tk init.
-Proof. unfold inv, init; cbn. repeat split; auto; try lia. discriminate. Qed.
+Lemma inv_init tk : inv tk xinit.
+Proof. unfold inv, xinit; cbn. repeat split; auto; try lia. discriminate. Qed.
 
 
-Lemma inv_step tk s l s' : inv tk s -> step tk s l = Some s' -> inv tk s'.
+Lemma inv_step tk s l s' : inv tk s -> xstep tk s l = Some s' -> inv tk s'.
 Proof.
   intros (I1 & I2 & I3 & I4 & I5 & I6 & I7 & I8) H.
   step_inv H; cbn in *;
@@ -211,11 +211,11 @@ Proof.
     intuition (auto; try lia; try discriminate).
 Qed.
 
-Lemma inv_exec tk ls : forall s s', inv tk s -> exec tk ls s = Some s' -> inv tk s'.
+Lemma inv_exec tk ls : forall s s', inv tk s -> xexec tk ls s = Some s' -> inv tk s'.
 Proof.
   induction ls as [|l ls IH]; cbn; intros s s' Hi H.
   - injection H as <-. auto.
-  - destruct (step tk s l) eqn:E; [|discriminate]. eapply IH; [|eauto]. eapply inv_step; eauto.
+  - destruct (xstep tk s l) eqn:E; [|discriminate]. eapply IH; [|eauto]. eapply inv_step; eauto.
 Qed.
 
 Lemma inv_reachable tk s : reachable tk s -> inv tk s.
@@ -223,7 +223,7 @@ Proof. intros [ls H]. eapply inv_exec; eauto. apply inv_init. Qed.
 
 (* the retry counter changes only at the check, by one, on a reused connection, with ctx live, below the limit *)
 Lemma retry_only_by_check tk s l s' :
-  step tk s l = Some s' -> retry s' <> retry s ->
+  xstep tk s l = Some s' -> retry s' <> retry s ->
   l = ACheck /\ pcv s = PCheck false /\ ctxd s = false /\ retry s < retry_limit tk /\
   retry s' = S (retry s) /\ pcv s' = PGet.
 Proof.
@@ -237,7 +237,7 @@ Qed.
 
 (* the loop re-enters its top only through that retry *)
 Lemma back_to_get_only_by_retry tk s l s' :
-  step tk s l = Some s' -> pcv s' = PGet -> pcv s <> PGet ->
+  xstep tk s l = Some s' -> pcv s' = PGet -> pcv s <> PGet ->
   l = ACheck /\ pcv s = PCheck false /\ ctxd s = false /\ retry s < retry_limit tk /\ retry s' = S (retry s).
 Proof.
   intros H Hp Hn. step_inv H; cbn in *; try congruence;
@@ -251,38 +251,38 @@ Qed.
 (* a failure on a freshly dialled connection is returned, never retried *)
 Lemma fresh_failure_returns tk s :
   pcv s = PCheck true ->
-  exists s', step tk s ACheck = Some s' /\ pcv s' = PRet RErr /\ retry s' = retry s /\ dials s' = dials s.
+  exists s', xstep tk s ACheck = Some s' /\ pcv s' = PRet RErr /\ retry s' = retry s /\ dials s' = dials s.
 Proof.
   intros Hp. destruct s as [r c d p di att f gf gd gg]; cbn in *; subst.
-  unfold step; cbn. eexists; repeat split.
+  unfold xstep; cbn. eexists; repeat split.
 Qed.
 
 (* with ctx done a failure is returned, never retried *)
 Lemma ctx_done_failure_returns tk s f :
   pcv s = PCheck f -> ctxd s = true ->
-  exists s', step tk s ACheck = Some s' /\ pcv s' = PRet RErr /\ retry s' = retry s.
+  exists s', xstep tk s ACheck = Some s' /\ pcv s' = PRet RErr /\ retry s' = retry s.
 Proof.
   intros Hp Hc. destruct s as [r c d p di att f0 gf gd gg]; cbn in *; subst.
-  unfold step; cbn. rewrite andb_false_r. eexists; repeat split.
+  unfold xstep; cbn. rewrite andb_false_r. eexists; repeat split.
 Qed.
 
 (* at the limit a failure is returned *)
 Lemma limit_failure_returns tk s f :
   pcv s = PCheck f -> retry_limit tk <= retry s ->
-  exists s', step tk s ACheck = Some s' /\ pcv s' = PRet RErr.
+  exists s', xstep tk s ACheck = Some s' /\ pcv s' = PRet RErr.
 Proof.
   intros Hp Hc. destruct s as [r c d p di att f0 gf gd gg]; cbn in *; subst.
-  unfold step; cbn. assert ((r <? retry_limit tk) = false) as -> by (apply Nat.ltb_ge; lia).
+  unfold xstep; cbn. assert ((r <? retry_limit tk) = false) as -> by (apply Nat.ltb_ge; lia).
   rewrite andb_false_r. cbn. eexists; repeat split.
 Qed.
 
 (* below the limit, on a reused connection, with ctx live: retried *)
 Lemma reused_failure_retries tk s :
   pcv s = PCheck false -> ctxd s = false -> retry s < retry_limit tk ->
-  exists s', step tk s ACheck = Some s' /\ pcv s' = PGet /\ retry s' = S (retry s).
+  exists s', xstep tk s ACheck = Some s' /\ pcv s' = PGet /\ retry s' = S (retry s).
 Proof.
   intros Hp Hc Hl. destruct s as [r c d p di att f0 gf gd gg]; cbn in *; subst.
-  unfold step; cbn. assert ((r <? retry_limit tk) = true) as -> by (apply Nat.ltb_lt; lia).
+  unfold xstep; cbn. assert ((r <? retry_limit tk) = true) as -> by (apply Nat.ltb_lt; lia).
   cbn. eexists; repeat split.
 Qed.
 
@@ -302,20 +302,20 @@ Qed.
 (* pipelined connection: after closeWithErr the waiter's connection arm is enabled whatever the reply state *)
 Lemma pipe_kill_wakes s f r :
   pcv s = PWait f r ->
-  exists s1 s2, step TPipe s EKill = Some s1 /\ pcv s1 = PWait f r /\ cdead s1 = true /\
-                step TPipe s1 AArmConn = Some s2 /\ pcv s2 = PCheck f.
+  exists s1 s2, xstep TPipe s EKill = Some s1 /\ pcv s1 = PWait f r /\ cdead s1 = true /\
+                xstep TPipe s1 AArmConn = Some s2 /\ pcv s2 = PCheck f.
 Proof.
   intros Hp. destruct s as [r0 c d p di att f0 gf gd gg]; cbn in *; subst.
-  unfold step; cbn. eexists; eexists; repeat split.
+  unfold xstep; cbn. eexists; eexists; repeat split.
 Qed.
 
 (* broadcast: one cancellation of the connection context enables the arm of EVERY waiter of that connection *)
-Definition waiting (s : state) : Prop := exists f r, pcv s = PWait f r.
+Definition waiting (s : xstate) : Prop := exists f r, pcv s = PWait f r.
 
-Lemma pipe_kill_wakes_all (ws : list state) :
+Lemma pipe_kill_wakes_all (ws : list xstate) :
   Forall waiting ws ->
-  Forall (fun w => exists w1 w2 f, step TPipe w EKill = Some w1 /\ cdead w1 = true /\
-                                   step TPipe w1 AArmConn = Some w2 /\ pcv w2 = PCheck f) ws.
+  Forall (fun w => exists w1 w2 f, xstep TPipe w EKill = Some w1 /\ cdead w1 = true /\
+                                   xstep TPipe w1 AArmConn = Some w2 /\ pcv w2 = PCheck f) ws.
 Proof.
   intros H. eapply Forall_impl; [|exact H].
   intros w (f & r & Hp). destruct (pipe_kill_wakes w f r Hp) as (w1 & w2 & A & B & C & D & E).
@@ -324,18 +324,18 @@ Qed.
 
 (* the cancelled context stays cancelled while the waiter waits: environment steps cannot disable the arm *)
 Lemma dead_wait_arm s :
-  waiting s -> cdead s = true -> exists s2 f, step TPipe s AArmConn = Some s2 /\ pcv s2 = PCheck f.
+  waiting s -> cdead s = true -> exists s2 f, xstep TPipe s AArmConn = Some s2 /\ pcv s2 = PCheck f.
 Proof.
   intros (f & r & Hp) Hd. destruct s as [r0 c d p di att f0 gf gd gg]; cbn in *; subst.
-  unfold step; cbn. eexists; exists f; split; reflexivity.
+  unfold xstep; cbn. eexists; exists f; split; reflexivity.
 Qed.
 
 Lemma env_step_keeps_dead_wait s l s1 :
-  waiting s -> cdead s = true -> is_own l = false -> step TPipe s l = Some s1 ->
+  waiting s -> cdead s = true -> is_own l = false -> xstep TPipe s l = Some s1 ->
   waiting s1 /\ cdead s1 = true.
 Proof.
   intros (f & r & Hp) Hd O E. destruct s as [r0 c d p di att f0 gf gd gg]; cbn in *; subst.
-  destruct l; cbn in O; try discriminate; unfold step in E; cbn in E.
+  destruct l; cbn in O; try discriminate; unfold xstep in E; cbn in E.
   - destruct c; [discriminate E|]. injection E as <-. split; [exists f, r|]; reflexivity.
   - injection E as <-. split; [exists f, r|]; reflexivity.
   - destruct r; [discriminate E|]. destruct ok; cbn in E; [|discriminate E].
@@ -344,12 +344,12 @@ Qed.
 
 Lemma pipe_dead_arm_stable ls : forall s,
   waiting s -> cdead s = true -> count_own ls = 0 ->
-  forall s', exec TPipe ls s = Some s' ->
-  waiting s' /\ cdead s' = true /\ exists s2 f, step TPipe s' AArmConn = Some s2 /\ pcv s2 = PCheck f.
+  forall s', xexec TPipe ls s = Some s' ->
+  waiting s' /\ cdead s' = true /\ exists s2 f, xstep TPipe s' AArmConn = Some s2 /\ pcv s2 = PCheck f.
 Proof.
   induction ls as [|l ls IH]; cbn; intros s Hw Hd Hc s' H.
   - injection H as <-. repeat split; auto. apply dead_wait_arm; auto.
-  - destruct (step TPipe s l) as [s1|] eqn:E; [|discriminate].
+  - destruct (xstep TPipe s l) as [s1|] eqn:E; [|discriminate].
     destruct (is_own l) eqn:O; [lia|].
     destruct (env_step_keeps_dead_wait _ _ _ Hw Hd O E) as [Hw1 Hd1].
     eapply IH; eauto.
@@ -360,20 +360,20 @@ Qed.
    enabled and leaves the wait *)
 Lemma worker_kill_wakes tk s f r :
   conn_arm tk = false -> pcv s = PWait f r ->
-  exists s1, step tk s EKill = Some s1 /\ pcv s1 = PWait f r /\
+  exists s1, xstep tk s EKill = Some s1 /\ pcv s1 = PWait f r /\
     match r with
-    | Some _ => exists s2, step tk s1 AArmRes = Some s2 /\ returned s2 || match pcv s2 with PCheck _ => true | _ => false end = true
-    | None => exists s2 s3, step tk s1 (EDeliver false) = Some s2 /\ step tk s2 AArmRes = Some s3 /\
+    | Some _ => exists s2, xstep tk s1 AArmRes = Some s2 /\ returned s2 || match pcv s2 with PCheck _ => true | _ => false end = true
+    | None => exists s2 s3, xstep tk s1 (EDeliver false) = Some s2 /\ xstep tk s2 AArmRes = Some s3 /\
                             match pcv s3 with PCheck _ | PRet RErr => True | _ => False end
     end.
 Proof.
   intros Ha Hp. destruct s as [r0 c d p di att f0 gf gd gg]; cbn in *; subst.
   eexists. split; [reflexivity|]. split; [reflexivity|].
   destruct r as [ok|].
-  - destruct ok; unfold step; cbn.
+  - destruct ok; unfold xstep; cbn.
     + eexists; split; eauto.
     + destruct tk; cbn in Ha; try discriminate Ha; cbn; eexists; split; eauto.
-  - destruct tk; cbn in Ha; try discriminate Ha; unfold step; cbn;
+  - destruct tk; cbn in Ha; try discriminate Ha; unfold xstep; cbn;
       (eexists; eexists; split; [reflexivity|]; cbn; split; [reflexivity|exact I]).
 Qed.
 
@@ -410,10 +410,10 @@ Qed.
 (* a healthy connection is not blocked: the reply can be delivered and taken *)
 Lemma healthy_wait_delivers tk s f :
   pcv s = PWait f None ->
-  exists s1 s2, step tk s (EDeliver true) = Some s1 /\ step tk s1 AArmRes = Some s2 /\ pcv s2 = PRet RReply.
+  exists s1 s2, xstep tk s (EDeliver true) = Some s1 /\ xstep tk s1 AArmRes = Some s2 /\ pcv s2 = PRet RReply.
 Proof.
   intros Hp. destruct s as [r0 c d p di att f0 gf gd gg]; cbn in *; subst.
-  unfold step; cbn. rewrite andb_false_r. cbn. eexists; eexists; repeat split.
+  unfold xstep; cbn. rewrite andb_false_r. cbn. eexists; eexists; repeat split.
 Qed.
 
 (* scripted form: k <= limit stale pooled connections, then a healthy fresh dial: reply after exactly one dial *)
@@ -459,11 +459,11 @@ Proof. split; vm_compute; reflexivity. Qed.
 (* the scripted runner only ever produces executions of [step] *)
 Lemma run_script_sound tk pool dialf o :
   run_script tk pool dialf = Some o ->
-  exists ls s, exec tk ls init = Some s /\ pcv s = PRet (o_class o) /\
+  exists ls s, xexec tk ls xinit = Some s /\ pcv s = PRet (o_class o) /\
                dials s = o_dials o /\ attempts s = o_attempts o /\ ctxd s = o_ctx o.
 Proof.
   unfold run_script. intros H.
-  destruct (exec tk (run_labels script_fuel tk init pool dialf FNone) init) as [s|] eqn:E; [|discriminate].
+  destruct (xexec tk (run_labels script_fuel tk xinit pool dialf FNone) xinit) as [s|] eqn:E; [|discriminate].
   destruct (pcv s) eqn:P; try discriminate. injection H as <-. cbn.
   eexists; eexists; split; [exact E|]. auto.
 Qed.
@@ -480,8 +480,8 @@ Qed.
 (* ---------- packaged forms used by Props/C14.v ---------- *)
 Lemma retry_boundary tk s :
   pcv s = PCheck false -> ctxd s = false ->
-  (retry s < retry_limit tk -> exists s', step tk s ACheck = Some s' /\ pcv s' = PGet /\ retry s' = S (retry s)) /\
-  (retry_limit tk <= retry s -> exists s', step tk s ACheck = Some s' /\ pcv s' = PRet RErr).
+  (retry s < retry_limit tk -> exists s', xstep tk s ACheck = Some s' /\ pcv s' = PGet /\ retry s' = S (retry s)) /\
+  (retry_limit tk <= retry s -> exists s', xstep tk s ACheck = Some s' /\ pcv s' = PRet RErr).
 Proof.
   intros Hp Hc. split; intros H.
   - apply reused_failure_retries; auto.
@@ -496,7 +496,7 @@ Proof. intros H1 H2. split; [apply script_stale_success|apply script_stale_succe
 
 Lemma run_script_sound_bounds tk pool dialf o :
   run_script tk pool dialf = Some o ->
-  (exists ls s, exec tk ls init = Some s /\ pcv s = PRet (o_class o) /\
+  (exists ls s, xexec tk ls xinit = Some s /\ pcv s = PRet (o_class o) /\
                 dials s = o_dials o /\ attempts s = o_attempts o /\ ctxd s = o_ctx o) /\
   o_attempts o <= retry_limit tk + 1 /\ o_dials o <= 1.
 Proof.
@@ -504,3 +504,223 @@ Proof.
   - eapply run_script_sound; eauto.
   - eapply run_script_bounds; eauto.
 Qed.
+
+(* ================================================================================================================
+   The idle read deadline of a pipelined connection ([ix_step]); the code is [wr = false]. *)
+
+Lemma ix_dead_monotone wr idle s l s' :
+  ix_step wr idle s l = Some s' -> ix_dead (ix_conn s) = true -> ix_dead (ix_conn s') = true.
+Proof.
+  destruct s as [[dd sn] ws]. unfold ix_step; cbn. intros H Hd; subst dd.
+  destruct l; cbn in H.
+  - injection H as <-. reflexivity.
+  - discriminate H.
+  - unfold ix_fire_enabled in H; cbn in H. discriminate H.
+  - discriminate H.
+  - injection H as <-. reflexivity.
+  - destruct (nth_error ws i) as [w|]; [|discriminate H].
+    match type of H with (if ?a then _ else _) = _ => destruct a; [|discriminate H] end.
+    destruct (xstep TPipe w l) as [w'|]; [|discriminate H]. injection H as <-. cbn.
+    destruct l; cbn; try reflexivity.
+    + destruct (ix_on_conn w); reflexivity.
+    + destruct (wr && ix_on_conn w); reflexivity.
+Qed.
+
+(* no step other than a read from the connection ever lowers the time since the deadline was armed:
+   in particular no write, no join, no retry, no step of any exchange *)
+Lemma ix_since_monotone idle s l s' :
+  ix_step false idle s l = Some s' -> ix_is_read s l = false ->
+  ix_since (ix_conn s) + (match l with IxTick => 1 | _ => 0 end) <= ix_since (ix_conn s').
+Proof.
+  destruct s as [[dd sn] ws]. unfold ix_step, ix_is_read; cbn. intros H Hr.
+  destruct l; cbn in H; try discriminate Hr.
+  - injection H as <-. cbn. lia.
+  - destruct (ix_fire_enabled idle _); [|discriminate H]. injection H as <-. cbn. lia.
+  - destruct dd; [discriminate H|]. injection H as <-. cbn. lia.
+  - injection H as <-. cbn. lia.
+  - destruct (nth_error ws i) as [w|]; [|discriminate H].
+    match type of H with (if ?a then _ else _) = _ => destruct a; [|discriminate H] end.
+    destruct (xstep TPipe w l) as [w'|]; [|discriminate H]. injection H as <-. cbn.
+    destruct l; cbn; try lia.
+    rewrite Hr. cbn. lia.
+Qed.
+
+Lemma ix_silence_accumulates idle ls : forall s s',
+  ix_exec false idle ls s = Some s' -> ix_silent false idle ls s = true ->
+  ix_since (ix_conn s) + ix_ticks ls <= ix_since (ix_conn s').
+Proof.
+  induction ls as [|l ls IH]; cbn; intros s s' H Hs.
+  - injection H as <-. lia.
+  - destruct (ix_step false idle s l) as [s1|] eqn:E; [|discriminate H].
+    apply andb_true_iff in Hs. destruct Hs as [Hr Hs]. apply negb_true_iff in Hr.
+    pose proof (ix_since_monotone _ _ _ _ E Hr) as M.
+    specialize (IH _ _ H Hs). destruct l; cbn in *; lia.
+Qed.
+
+(* after an idle time-out of silence the deadline step is enabled, whatever the exchanges did meanwhile *)
+Lemma ix_fire_enabled_after_silence idle ls s s' :
+  ix_exec false idle ls s = Some s' -> ix_silent false idle ls s = true ->
+  idle <= ix_since (ix_conn s) + ix_ticks ls ->
+  ix_dead (ix_conn s') = false ->
+  exists s'', ix_step false idle s' IxIdleFire = Some s''.
+Proof.
+  intros H Hs Hi Hd. pose proof (ix_silence_accumulates _ _ _ _ H Hs) as M.
+  unfold ix_step, ix_fire_enabled. rewrite Hd. cbn.
+  assert ((idle <=? ix_since (ix_conn s')) = true) as -> by (apply Nat.leb_le; lia).
+  eauto.
+Qed.
+
+(* firing cancels the connection context in every exchange that is on the connection, and touches nothing else *)
+Lemma ix_fire_wakes_all wr idle s s' :
+  ix_step wr idle s IxIdleFire = Some s' ->
+  ix_dead (ix_conn s') = true /\
+  forall i w, nth_error (ix_ws s) i = Some w ->
+    nth_error (ix_ws s') i = Some (ix_kill_w w) /\
+    (ix_on_conn w = true -> cdead (ix_kill_w w) = true) /\
+    pcv (ix_kill_w w) = pcv w /\ retry (ix_kill_w w) = retry w /\ ctxd (ix_kill_w w) = ctxd w /\
+    dials (ix_kill_w w) = dials w.
+Proof.
+  unfold ix_step. destruct (ix_fire_enabled idle s); [|discriminate]. intros H. injection H as <-. cbn.
+  split; [reflexivity|]. intros i w Hn. split; [apply map_nth_error; exact Hn|].
+  unfold ix_kill_w. destruct (ix_on_conn w); cbn; repeat split; auto. discriminate.
+Qed.
+
+(* one woken waiter, healthy server for new connections: connection arm, retry, ONE dial, reply *)
+Lemma ix_waiter_recovers w r :
+  pcv w = PWait false r -> cdead w = true -> ctxd w = false -> retry w < retry_limit TPipe ->
+  exists w', xexec TPipe ix_recovery w = Some w' /\ pcv w' = PRet RReply /\
+             dials w' = S (dials w) /\ retry w' = S (retry w) /\ ctxd w' = false.
+Proof.
+  intros Hp Hd Hc Hr. destruct w as [r0 c d p di att f gf gd gg]; cbn in *; subst.
+  unfold ix_recovery, xexec, xstep; cbn.
+  assert ((r0 <? 5) = true) as -> by (apply Nat.ltb_lt; exact Hr). cbn.
+  eexists; repeat split.
+Qed.
+
+(* labels an exchange can take whatever the state of the shared connection *)
+Definition ix_free (l : xlabel) (w : xstate) : bool :=
+  match l with
+  | EKill | EDeliver _ => negb (ix_on_conn w)
+  | AGet true => false
+  | _ => true
+  end.
+
+Fixpoint ix_fexec (ls : list xlabel) (w : xstate) : option xstate :=
+  match ls with
+  | [] => Some w
+  | l :: r => if ix_free l w then match xstep TPipe w l with Some w' => ix_fexec r w' | None => None end else None
+  end.
+
+Lemma ix_set_nth_same i w : forall l x, nth_error l i = Some x -> nth_error (ix_set_nth i w l) i = Some w.
+Proof.
+  induction i as [|i IH]; intros [|y l] x H; cbn in *; try discriminate; auto. eapply IH; eauto.
+Qed.
+
+Lemma ix_set_nth_other i w : forall l j, j <> i -> nth_error (ix_set_nth i w l) j = nth_error l j.
+Proof.
+  induction i as [|i IH]; intros [|y l] j H; cbn; auto.
+  - destruct j; [congruence|reflexivity].
+  - destruct j; [reflexivity|]. cbn. apply IH. congruence.
+Qed.
+
+Lemma ix_lift idle i ls : forall s w w',
+  nth_error (ix_ws s) i = Some w -> ix_fexec ls w = Some w' ->
+  exists s', ix_exec false idle (map (IxW i) ls) s = Some s' /\
+             nth_error (ix_ws s') i = Some w' /\ ix_conn s' = ix_conn s /\
+             (forall j, j <> i -> nth_error (ix_ws s') j = nth_error (ix_ws s) j).
+Proof.
+  induction ls as [|l ls IH]; intros s w w' Hn H; cbn [ix_fexec] in H; cbn [map ix_exec].
+  - injection H as <-. exists s. auto.
+  - destruct (ix_free l w) eqn:F; [|discriminate H].
+    destruct (xstep TPipe w l) as [w1|] eqn:E; [|discriminate H].
+    assert (exists s1, ix_step false idle s (IxW i l) = Some s1 /\ nth_error (ix_ws s1) i = Some w1 /\
+                       ix_conn s1 = ix_conn s /\
+                       (forall j, j <> i -> nth_error (ix_ws s1) j = nth_error (ix_ws s) j)) as (s1 & S1 & N1 & C1 & O1).
+    { unfold ix_step. rewrite Hn.
+      assert ((match l with
+               | EKill => negb (ix_on_conn w)
+               | AGet true => negb (ix_dead (ix_conn s))
+               | EDeliver _ => negb (ix_on_conn w && ix_dead (ix_conn s))
+               | _ => true end) = true) as ->.
+      { destruct l; cbn in F; auto.
+        - apply negb_true_iff in F. rewrite F. reflexivity.
+        - destruct pooled; [discriminate F|reflexivity]. }
+      rewrite E. eexists. split; [reflexivity|]. cbn. repeat split.
+      - eapply ix_set_nth_same; eauto.
+      - destruct l; cbn in *; auto. apply negb_true_iff in F. rewrite F. reflexivity.
+      - intros j Hj. apply ix_set_nth_other; auto. }
+    rewrite S1. destruct (IH _ _ _ N1 H) as (s' & X & N & C & O).
+    exists s'. repeat split; auto; try congruence.
+    intros j Hj. rewrite O by auto. apply O1; auto.
+Qed.
+
+Lemma ix_recovery_free w r :
+  pcv w = PWait false r -> cdead w = true -> ctxd w = false -> retry w < retry_limit TPipe ->
+  ix_fexec ix_recovery w = xexec TPipe ix_recovery w.
+Proof.
+  intros Hp Hd Hc Hr. destruct w as [r0 c d p di att f gf gd gg]; cbn in *; subst.
+  unfold ix_recovery, ix_fexec, xexec, xstep, ix_free, ix_on_conn; cbn.
+  assert ((r0 <? 5) = true) as -> by (apply Nat.ltb_lt; exact Hr). cbn. reflexivity.
+Qed.
+
+(* the whole statement: a pooled pipelined connection that has been silent for an idle time-out — whatever was
+   written on it meanwhile, however many exchanges joined — is declared dead by a step that is enabled, and then
+   every exchange waiting on it with a live context and retry budget reaches the reply over ONE fresh dial, by steps
+   of its own plus a healthy server's, without disturbing the other exchanges *)
+Lemma ix_silent_pooled_conn_recovered idle ls s0 s :
+  ix_exec false idle ls s0 = Some s -> ix_silent false idle ls s0 = true ->
+  idle <= ix_since (ix_conn s0) + ix_ticks ls ->
+  ix_dead (ix_conn s) = false ->
+  exists sf, ix_step false idle s IxIdleFire = Some sf /\ ix_dead (ix_conn sf) = true /\
+    forall i w r, nth_error (ix_ws s) i = Some w ->
+      pcv w = PWait false r -> ctxd w = false -> retry w < retry_limit TPipe ->
+      exists s2 w2, ix_exec false idle (map (IxW i) ix_recovery) sf = Some s2 /\
+                    nth_error (ix_ws s2) i = Some w2 /\ pcv w2 = PRet RReply /\
+                    dials w2 = S (dials w) /\ retry w2 = S (retry w) /\
+                    (forall j, j <> i -> nth_error (ix_ws s2) j = nth_error (ix_ws sf) j).
+Proof.
+  intros H Hs Hi Hd.
+  destruct (ix_fire_enabled_after_silence _ _ _ _ H Hs Hi Hd) as (sf & F).
+  exists sf. split; [exact F|]. destruct (ix_fire_wakes_all _ _ _ _ F) as (D & W). split; [exact D|].
+  intros i w r Hn Hp Hc Hr.
+  destruct (W i w Hn) as (N & K & P & R & C & DI).
+  assert (ix_on_conn w = true) as On by (unfold ix_on_conn; rewrite Hp; reflexivity).
+  specialize (K On).
+  assert (pcv (ix_kill_w w) = PWait false r) as Hp' by congruence.
+  assert (ctxd (ix_kill_w w) = false) as Hc' by congruence.
+  assert (retry (ix_kill_w w) < retry_limit TPipe) as Hr' by (rewrite R; exact Hr).
+  destruct (ix_waiter_recovers _ _ Hp' K Hc' Hr') as (w2 & X & P2 & D2 & R2 & _).
+  rewrite <- (ix_recovery_free _ _ Hp' K Hc' Hr') in X.
+  destruct (ix_lift idle i _ _ _ _ N X) as (s2 & E2 & N2 & _ & O2).
+  exists s2, w2. repeat split; auto; congruence.
+Qed.
+
+(* sensitivity: if a write re-armed the read deadline ([wr = true], a SetDeadline in write), exchanges arriving more
+   often than the idle time-out would keep a silent connection alive for ever: 10 rounds of (a new exchange gets the
+   pooled connection, writes, one time unit passes) with idle = 3 — silent throughout, 10 units of time, and the
+   deadline step is still disabled; with the code ([wr = false]) it is enabled after the same execution *)
+Fixpoint ix_busy_rounds (n k : nat) : list ixlabel :=
+  match n with
+  | 0 => []
+  | S m => [IxJoin; IxW k (AGet true); IxW k (AWrite true); IxTick] ++ ix_busy_rounds m (S k)
+  end.
+
+Lemma ix_write_rearm_starves :
+  let ls := ix_busy_rounds 10 0 in
+  ix_ticks ls = 10 /\
+  ix_silent true 3 ls ix_init = true /\ ix_silent false 3 ls ix_init = true /\
+  (exists s, ix_exec true 3 ls ix_init = Some s /\ ix_dead (ix_conn s) = false /\ ix_fire_enabled 3 s = false /\
+             length (ix_ws s) = 10 /\ forallb ix_on_conn (ix_ws s) = true) /\
+  (exists s, ix_exec false 3 ls ix_init = Some s /\ ix_dead (ix_conn s) = false /\ ix_fire_enabled 3 s = true).
+Proof.
+  cbv zeta. split; [vm_compute; reflexivity|]. split; [vm_compute; reflexivity|]. split; [vm_compute; reflexivity|].
+  split; eexists; (split; [vm_compute; reflexivity|]); vm_compute; repeat split.
+Qed.
+
+(* the scripted form the harness is compared with *)
+Lemma script_silent_pooled_recovered udp :
+  run_case_idle TPipe udp true [SSilent] [SOk] = Some (mkOut RReply 1 2 false) /\
+  run_case_idle TPipe udp true [SHalf] [SOk] = Some (mkOut RReply 1 2 false) /\
+  run_case_idle TPipe udp false [SSilent] [SOk] = Some (mkOut RErr 0 1 true) /\
+  run_case_idle TPipe udp true [] [SSilent] = Some (mkOut RErr 1 1 false).
+Proof. destruct udp; vm_compute; repeat split. Qed.
